@@ -283,3 +283,196 @@ def deep_case(rng):
             calls.append(c)
     return {"kind": "bed12", "fmt": fmt, "transcripts": ts, "calls": calls, "deep": {"target": target, "via": via},
             "shuffle_seed": rng.randrange(1 << 30) if rng.random() < 0.3 else None}
+
+
+# --- featuretype names that are substrings of one another ------------------------------------------------------------
+NAME_PAIRS = [("exon", "coding_exon"), ("UTR", "five_prime_UTR"), ("CDS", "CDS_part")]
+SUB_NAMES = [n for pair in NAME_PAIRS for n in pair]
+PARTNER = dict([(a, b) for a, b in NAME_PAIRS] + [(b, a) for a, b in NAME_PAIRS])
+
+
+def as_argument(rng, types):
+    """A list of type names in one of the two documented forms: a plain str (one name only) or a list."""
+    types = list(types)
+    if len(types) == 1 and rng.random() < 0.5:
+        return types[0]
+    rng.shuffle(types)
+    return types
+
+
+def sub_types(rng):
+    """Block type names: one name, a name with the name it contains / is contained in, names of several families."""
+    a = rng.choice(SUB_NAMES)
+    r = rng.random()
+    if r < 0.40:
+        return [a]
+    if r < 0.70:
+        return [a, PARTNER[a]]
+    if r < 0.90:
+        return [a, rng.choice([n for n in SUB_NAMES if n not in (a, PARTNER[a])])]
+    return [a, PARTNER[a], rng.choice([n for n in SUB_NAMES if n not in (a, PARTNER[a])])]
+
+
+def thick_types(rng, block):
+    """Thick type names in a chosen relation to the block type names."""
+    rel = rng.choice(["equal", "contained", "disjoint", "disjoint", "partner", "partner", "overlap"])
+    outside = [n for n in SUB_NAMES if n not in block]
+    if rel == "equal":
+        return list(block)
+    if rel == "contained" and len(block) > 1:
+        return rng.sample(block, rng.randrange(1, len(block)))
+    if rel == "partner":
+        # the names that contain / are contained in a block name and are not block names themselves
+        p = [PARTNER[b] for b in block if PARTNER[b] not in block]
+        if p:
+            return [rng.choice(p)]
+    if rel == "overlap" and outside:
+        return [rng.choice(block), rng.choice(outside)]
+    if outside:
+        t = [rng.choice(outside)]
+        if PARTNER[t[0]] in outside and rng.random() < 0.3:
+            t.append(PARTNER[t[0]])
+        return t
+    return list(block)
+
+
+def sub_transcript(rng, idx, block, thick):
+    """A transcript whose children carry the names of NAME_PAIRS.  flat: 3-8 pairwise disjoint (or abutting) segments,
+    each of one type; the first and last segment mostly of a block type, and every type named by the call has the type
+    whose name contains it / is contained in it somewhere in the transcript.  nested: exon / coding_exon segments
+    spanning the transcript, a CDS / CDS_part piece inside every coding_exon, UTR / five_prime_UTR over the others."""
+    strand = rng.choice(["+", "-"])
+    pos = rng.randrange(1, 3000)
+    layout = "flat" if rng.random() < 0.6 else "nested"
+    n = rng.randrange(3, 9)
+    segs = []
+    for _ in range(n):
+        ln = rng.choice([1, 2, 3, rng.randrange(1, 300), rng.randrange(1, 300)])
+        segs.append([pos, pos + ln - 1])
+        pos += ln + rng.choice([0, 1, 2, rng.randrange(1, 500)])
+    children = []
+    if layout == "flat":
+        named = list(block) + list(thick)
+        wanted = list(dict.fromkeys(named + [PARTNER[x] for x in named]))
+        types = [rng.choice(wanted if rng.random() < 0.75 else SUB_NAMES) for _ in segs]
+        inner = list(range(1, n - 1))
+        rng.shuffle(inner)
+        for i, w in zip(inner, rng.sample(wanted, len(wanted))):
+            types[i] = w
+        if rng.random() < 0.85:
+            types[0] = rng.choice(block)
+            types[-1] = rng.choice(block)
+        for (s, e), ty in zip(segs, types):
+            children.append({"type": ty, "start": s, "end": e})
+    else:
+        kinds = [rng.choice(["exon", "coding_exon", "coding_exon"]) for _ in segs]
+        for (s, e), ty in zip(segs, kinds):
+            children.append({"type": ty, "start": s, "end": e})
+            if ty == "coding_exon":
+                a = rng.randrange(s, e + 1)
+                children.append({"type": rng.choice(["CDS", "CDS_part"]), "start": a, "end": rng.randrange(a, e + 1)})
+            else:
+                children.append({"type": rng.choice(["UTR", "five_prime_UTR"]), "start": s, "end": e})
+    tstart, tend = segs[0][0], segs[-1][1]
+    shape = "spanning"
+    if rng.random() < 0.1:
+        shape = "ends after last block"
+        tend += rng.choice([1, 2, 50])
+    rng.shuffle(children)
+    tid = rng.choice(ID_FORMS) % idx
+    attrs = [["ID", [tid]], ["Parent", ["g%d" % idx]]]
+    if rng.random() < 0.5:
+        attrs.append(["Name", [rng.choice(["nm", "Abc-RA", "x.1"])]])
+    return {"id": tid, "seqid": rng.choice(["chr1", "chr2L", "ctg.7-b"]), "strand": strand, "start": tstart, "end": tend,
+            "score": rng.choice([".", ".", "0", "7"]), "type": rng.choice(["mRNA", "transcript"]), "attrs": attrs,
+            "children": children, "shape": shape, "layout": layout}
+
+
+NESTED_BLOCKS = [["exon", "coding_exon"], ["exon", "coding_exon"], ["coding_exon"], ["exon"], ["CDS", "CDS_part"], ["CDS_part"],
+                 ["CDS"], ["UTR", "five_prime_UTR"], ["UTR"]]
+NESTED_THICK = [["CDS"], ["CDS_part"], ["CDS", "CDS_part"], ["exon"], ["coding_exon"], ["exon", "coding_exon"], ["UTR"],
+                ["five_prime_UTR"], ["UTR", "five_prime_UTR"]]
+
+
+def substring_case(rng):
+    """bed12 calls on GFF3 transcripts whose children carry type names that contain one another; block and thick
+    featuretypes as str and as list, thick names equal to / contained in / disjoint from / overlapping the block names.
+    Selections with two children sharing a start or overlapping are not asked (order / extent not stated)."""
+    ts, calls = [], []
+    for i in range(rng.randrange(1, 4)):
+        block = sub_types(rng)
+        thick = thick_types(rng, block)
+        t = sub_transcript(rng, i, block, thick)
+        ts.append(t)
+        todo = [(block, thick)]
+        for _ in range(rng.randrange(1, 4)):
+            if t["layout"] == "nested":
+                todo.append((rng.choice(NESTED_BLOCKS), rng.choice(NESTED_THICK)))
+            else:
+                b = sub_types(rng)
+                if rng.random() < 0.7:
+                    # block names that include the types of the outermost segments (blocks span the transcript)
+                    order = sorted(t["children"], key=lambda c: c["start"])
+                    b = list(dict.fromkeys([order[0]["type"], order[-1]["type"]] + (b[:1] if rng.random() < 0.4 else [])))
+                todo.append((b, thick_types(rng, b)))
+        if t["layout"] == "nested":
+            todo[0] = (rng.choice(NESTED_BLOCKS[:3]), rng.choice(NESTED_THICK))
+        for b, k in todo:
+            if (M.ambiguous_order(t["children"], b) or M.overlapping(t["children"], b) or M.ambiguous_order(t["children"], k)
+                    or M.overlapping(t["children"], k)):
+                continue
+            thin = None
+            if rng.random() < 0.08:
+                k, thin = None, as_argument(rng, ["UTR"] if rng.random() < 0.5 else ["five_prime_UTR", "UTR"])
+            c = {"t": i, "as": rng.choice(["id", "feature"]), "block": as_argument(rng, b),
+                 "thick": as_argument(rng, k) if k else None, "thin": thin,
+                 "name_field": rng.choice(["ID", "Name", "absent_key"]), "color": rng.choice(COLORS), "to_bed12": rng.random() < 0.3}
+            if not M.select(t["children"], c["block"]):
+                c["as"] = "feature"
+            calls.append(c)
+    return {"kind": "bed12", "fmt": "gff3", "transcripts": ts, "calls": calls, "sub": True,
+            "shuffle_seed": rng.randrange(1 << 30) if rng.random() < 0.3 else None}
+
+
+# --- two FASTA files with the same base name and byte size in different directories ---------------------------------
+def twin_case(rng):
+    """File B holds the records of file A in another order / with some bases changed / with bases moved from one record
+    to another, such that both files have the same size in bytes; calls alternate between the two paths."""
+    names = list(SEQ_NAMES)
+    rng.shuffle(names)
+    a = small_genome(rng, names[:rng.randrange(2, 5)])
+    size = len(M.fasta_text(a).encode())
+    how = rng.choice(["order", "order", "order", "bases", "move", "move"])
+    b = None
+    if how == "move":
+        for _ in range(20):
+            i, j = rng.sample(range(len(a)), 2)
+            k = rng.randrange(1, 6)
+            if len(a[j][2]) <= k:
+                continue
+            cand = [list(r) for r in a]
+            cand[i][2] = a[i][2] + a[j][2][:k]
+            cand[j][2] = a[j][2][k:]
+            if len(M.fasta_text(cand).encode()) == size:
+                b = cand
+                break
+        if b is None:
+            how = "order"
+    if how == "bases":
+        b = [list(r) for r in a]
+        for _ in range(rng.randrange(1, 4)):
+            r = rng.choice(b)
+            p = rng.randrange(len(r[2]))
+            r[2] = r[2][:p] + {"A": "C", "C": "G", "G": "T", "T": "A"}.get(r[2][p].upper(), "A") + r[2][p + 1:]
+    if how == "order":
+        b = [list(r) for r in a]
+        while [r[0] for r in b] == [r[0] for r in a]:
+            rng.shuffle(b)
+    assert len(M.fasta_text(b).encode()) == size
+    calls = []
+    first = rng.randrange(2)
+    for n in range(rng.randrange(3, 8)):
+        which = (first + n) % 2 if rng.random() < 0.85 else rng.randrange(2)
+        calls.append([which] + slices(rng, (a, b)[which], 1)[0])
+    return {"kind": "seqtwin", "a": a, "b": b, "how": how, "basename": rng.choice(["genome.fa", "ref.fasta", "dm6.fa", "seq"]),
+            "calls": calls, "origin": rng.choice(["line", "ctor"])}
